@@ -209,12 +209,23 @@ class Walker:
 
     def _prescan(self, frame, body):
         """find directly assigned variables (opaque) and local accumulators"""
-        for n in ir.walk(body):
-            k = n.get('k')
-            if k in ('Assign', 'AssignOp'):
-                l = ir.strip(n['l'])
-                if l.get('k') == 'Var':
-                    frame.mut_vars.add(l['v'])
+        seen = set()
+        todo = [body]
+        while todo:
+            b = todo.pop()
+            for n in ir.walk(b):
+                k = n.get('k')
+                if k in ('Assign', 'AssignOp'):
+                    l = ir.strip(n['l'])
+                    if l.get('k') == 'Var':
+                        frame.mut_vars.add(l['v'])
+                elif k == 'Closure':
+                    # closures are separate body owners but share the variables of their parent
+                    d = n['def']
+                    cb = self.prog.bodies.get(d)
+                    if cb is not None and 'body' in cb and d not in seen:
+                        seen.add(d)
+                        todo.append(cb['body'])
 
     def call_local(self, fn_path, args, pc, top=False, closure_env=None):
         prog = self.prog
@@ -1064,6 +1075,13 @@ def _parse_const(s):
         return body
     if len(s) >= 2 and s[0] == '"' and s[-1] == '"':
         return s[1:-1]
+    if s.startswith('Branch([') and s.endswith('): str'):
+        inner = s[len('Branch(['):s.rindex('])')]
+        try:
+            bs = bytes(int(x.strip().split('_')[0]) for x in inner.split(',') if x.strip())
+            return bs.decode('utf-8', 'replace')
+        except ValueError:
+            return s
     if s in ('true', 'false'):
         return s == 'true'
     # integer with optional type suffix, e.g. 35_u8
